@@ -130,4 +130,84 @@ example : getTag .dev ([4,0,0,0, 16,0,0,0, 1,0,0,0, 2,0,0,0,  4,0,0,0, 16,0,0,0,
     = .ok (some ⟨0, 16, 16, 0⟩) := by decide
 example : getTag .dev ([0,0,0,0, 8,0,0,0]) .meminfo = .ok none := by decide
 
+/-- the specification's checksum: the sum of the bytes `[a, a+n)` modulo 256 -/
+def sumMod (T : Bytes) (a n : Nat) : Nat := ((List.range n).map fun i => u8At T (a + i)).sum % 256
+
+theorem foldlM_range'_sum (T : Bytes) (a : Nat) : ∀ n s acc, acc < 256 → a + s + n ≤ T.length →
+    (List.range' s n).foldlM (fun acc i => (do let b ← rd8 T (a + i); Res.ok ((acc + b) % 256) : Res Nat)) acc =
+      .ok ((acc + ((List.range' s n).map fun i => u8At T (a + i)).sum) % 256) := by
+  intro n
+  induction n with
+  | zero => intro s acc ha _; simp [List.range']; omega
+  | succ k ih =>
+    intro s acc ha h
+    rw [List.range'_succ, List.foldlM_cons]
+    have : rd8 T (a + s) = .ok (u8At T (a + s)) := by unfold rd8; rw [if_pos (by omega)]
+    rw [this]
+    simp only [Res.bind_ok]
+    rw [ih (s + 1) _ (Nat.mod_lt _ (by omega)) (by omega)]
+    congr 1
+    simp only [List.map_cons, List.sum_cons]
+    omega
+
+theorem foldlM_range_sum (T : Bytes) (a n : Nat) (h : a + n ≤ T.length) :
+    (List.range n).foldlM (fun acc i => (do let b ← rd8 T (a + i); Res.ok ((acc + b) % 256) : Res Nat)) 0 = .ok (sumMod T a n) := by
+  rw [List.range_eq_range', foldlM_range'_sum T a n 0 0 (by omega) (by omega)]
+  simp [sumMod, List.range_eq_range']
+
+/-- the byte-sum loop computes the specification's checksum and reads exactly the bytes `[a, a+n)` -/
+theorem byteSum_eq (T : Bytes) (a n : Nat) (h : a + n ≤ T.length) : byteSum T a n = .ok (sumMod T a n) := by
+  unfold byteSum
+  simp only [Res.pure_eq]
+  exact foldlM_range_sum T a n h
+
+/-- ACPI 1.0 RSDP: valid exactly when the 20 bytes of the structure sum to 0 modulo 256 -/
+theorem rsdp1_valid_iff (T : Bytes) (hT : 28 ≤ T.length) : rsdp1Valid T = .ok (sumMod T 8 20 == 0) := by
+  unfold rsdp1Valid
+  rw [byteSum_eq T 8 20 (by omega)]
+  rfl
+
+/-- ACPI 2.0 RSDP: valid exactly when its own length field fits the 36-byte structure and the bytes `[8, 8+length)`
+    sum to 0 modulo 256 -/
+theorem rsdp2_valid_iff (T : Bytes) (hT : 44 ≤ T.length) :
+    rsdp2Valid T = .ok (decide (le32 T 28 ≤ 36) && (sumMod T 8 (le32 T 28) == 0)) := by
+  unfold rsdp2Valid rd32
+  rw [if_pos (by omega)]
+  simp only [Res.bind_ok]
+  by_cases h : le32 T 28 > 36
+  · rw [if_pos h]
+    have : decide (le32 T 28 ≤ 36) = false := by simp; omega
+    rw [this]; rfl
+  · rw [if_neg h, byteSum_eq T 8 _ (by omega)]
+    have : decide (le32 T 28 ≤ 36) = true := by simp; omega
+    rw [this]; rfl
+
+/-- Memory-map entries: with the specified entry size 24, entry `i` is decoded from exactly the 24 bytes at
+    `16 + 24·i` of the tag: base (u64), length (u64), type (u32); `end = base + length` wraps modulo 2^64 (see C08);
+    any other entry size is a controlled panic. -/
+theorem memoryAreas_eq (T : Bytes) (v : View) (hfit : 16 + 24 * v.n ≤ T.length) :
+    memoryAreas T v =
+      (if le32 T 8 ≠ 24 then .panic
+       else .ok ((List.range v.n).map fun i =>
+         ⟨le64 T (16 + 24 * i), (le64 T (16 + 24 * i) + le64 T (16 + 24 * i + 8)) % W64, le64 T (16 + 24 * i + 8),
+          le32 T (16 + 24 * i + 16)⟩)) := by
+  unfold memoryAreas
+  have : rd32 T 8 = .ok (le32 T 8) := by unfold rd32; rw [if_pos (by omega)]
+  rw [this]
+  simp only [Res.bind_ok]
+  by_cases h : le32 T 8 ≠ 24
+  · rw [if_pos h, if_pos h]
+  · rw [if_neg h, if_neg h]
+    apply mapM_ok_of_forall
+    intro i hi
+    have hi' : i < v.n := by simpa using hi
+    have r1 : rd64 T (16 + 24 * i) = .ok (le64 T (16 + 24 * i)) := by unfold rd64; rw [if_pos (by omega)]
+    have r2 : rd64 T (16 + 24 * i + 8) = .ok (le64 T (16 + 24 * i + 8)) := by unfold rd64; rw [if_pos (by omega)]
+    have r3 : rd32 T (16 + 24 * i + 16) = .ok (le32 T (16 + 24 * i + 16)) := by unfold rd32; rw [if_pos (by omega)]
+    rw [r1, r2, r3]
+    rfl
+
+/-! Non-vacuity: "RSD PTR " + checksum byte making the 20 bytes sum to 0 -/
+example : rsdp1Valid ([0,0,0,0,0,0,0,0, 82,83,68,32,80,84,82,32, 0xe1, 0,0,0,0,0,0, 0, 0,0,0,0]) = .ok true := by decide
+
 end Mb2.C04
